@@ -69,9 +69,15 @@ pub enum Dev {
     /// approved under the hub chain, but the delivery names another source chain: 0 the (trusted) origin chain,
     /// 1 this service's own chain name, 2 the hub name in another letter case
     DeliveredUnderOtherSourceChain(u8),
+    /// two deviations at once: approved and delivered under the (trusted) origin chain instead of the hub chain, and
+    /// the payload is 0 the bare inner message, 1 a SendToHub wrapper, 2 a well-formed ReceiveFromHub wrapper
+    FromTrustedChainDirectly(u8),
 }
 
-const DEVS: [Dev; 26] = [
+const DEVS: [Dev; 29] = [
+    Dev::FromTrustedChainDirectly(0),
+    Dev::FromTrustedChainDirectly(1),
+    Dev::FromTrustedChainDirectly(2),
     Dev::DeliveredUnderOtherSourceChain(0),
     Dev::DeliveredUnderOtherSourceChain(1),
     Dev::DeliveredUnderOtherSourceChain(2),
@@ -119,7 +125,7 @@ pub struct Case {
 fn dev() -> impl Strategy<Value = Dev> {
     prop_oneof![
         5 => Just(Dev::None),
-        26 => prop::sample::select(DEVS.to_vec()),
+        29 => prop::sample::select(DEVS.to_vec()),
         1 => (1u8..64).prop_map(Dev::Truncated),
         1 => (1u8..64).prop_map(Dev::Padded),
         8 => super::c10::mutation().prop_map(Dev::Mutated),
@@ -161,7 +167,7 @@ impl Property for C04 {
         "C04"
     }
     fn rule(&self) -> &'static str {
-        "proptest single cases: world = gateway + gas service + ITS (current-source token injected natively) with one ITS-deployed token, one registered canonical token with 500 in custody, an executable probe; a trusted-chain history of 0-6 set/remove operations over 3 chains; optionally a prior successful delivery from the same origin; then a conforming delivery (ReceiveFromHub wrapping a mint / a release / a transfer with data / a deploy with or without minter; amounts 0 - where acceptance is not decided by the statement -, 1..399 and exactly the custody) and at most one deviation from the statement's list (never approved; approved with other payload / id / source address / destination; already executed; approval re-submitted after execution - with 0..150 days passing between approval, delivery and the retries; source chain not the hub (another chain, or the hub's name in another letter case / with a trailing space); source address not the hub address; SendToHub wrapper; raw inner message; inner type 2; origin never trusted / removed again / removed between approval and execution / a trusted name in another letter case or with a trailing space; unknown token; undecodable recipient or minter (garbage, well-formed XDR of a string / number / bytes / vector, truncated address); amount 2^127 / 2^128+a / 2^192+a / 2^255+a; truncated / padded payload; any byte-level mutation - bit flip, dirty type word or padding, shifted offset, altered length - that leaves a non-canonical encoding, applied to the whole payload or to the nested message inside a well-formed envelope; a nested blob of 0..69 bytes; approved under the hub chain but delivered naming the trusted origin chain / the service's own chain / the hub name in another letter case). Oracle: effects (exact balance / custody / registry delta, gateway status executed, second delivery refused) iff no deviation; otherwise execute fails and the ledger snapshot is identical (approval still approved, not executed). non-trivial = a deviation is present, or the trust history contains a removal; distinct by Debug hash"
+        "proptest single cases: world = gateway + gas service + ITS (current-source token injected natively) with one ITS-deployed token, one registered canonical token with 500 in custody, an executable probe; a trusted-chain history of 0-6 set/remove operations over 3 chains; optionally a prior successful delivery from the same origin; then a conforming delivery (ReceiveFromHub wrapping a mint / a release / a transfer with data / a deploy with or without minter; amounts 0 - where acceptance is not decided by the statement -, 1..399 and exactly the custody) and at most one deviation from the statement's list (never approved; approved with other payload / id / source address / destination; already executed; approval re-submitted after execution - with 0..150 days passing between approval, delivery and the retries; source chain not the hub (another chain, or the hub's name in another letter case / with a trailing space); source address not the hub address; SendToHub wrapper; raw inner message; inner type 2; origin never trusted / removed again / removed between approval and execution / a trusted name in another letter case or with a trailing space; unknown token; undecodable recipient or minter (garbage, well-formed XDR of a string / number / bytes / vector, truncated address); amount 2^127 / 2^128+a / 2^192+a / 2^255+a; truncated / padded payload; any byte-level mutation - bit flip, dirty type word or padding, shifted offset, altered length - that leaves a non-canonical encoding, applied to the whole payload or to the nested message inside a well-formed envelope; a nested blob of 0..69 bytes; a bare / SendToHub-wrapped / ReceiveFromHub-wrapped message approved and delivered under the trusted origin chain itself instead of the hub chain; approved under the hub chain but delivered naming the trusted origin chain / the service's own chain / the hub name in another letter case). Oracle: effects (exact balance / custody / registry delta, gateway status executed, second delivery refused) iff no deviation; otherwise execute fails and the ledger snapshot is identical (approval still approved, not executed). non-trivial = a deviation is present, or the trust history contains a removal; distinct by Debug hash"
     }
     fn cases(&self, tier: Tier) -> u64 {
         tier.pick(15000, 200000)
@@ -358,8 +364,8 @@ impl Property for C04 {
             return Ok(());
         }
         let mut payload = match dev {
-            Dev::OuterSendToHub => AHub::Send { chain: origin_name.as_bytes().to_vec(), inner: inner_bytes.clone() }.encode(),
-            Dev::RawInner => inner_bytes.clone(),
+            Dev::OuterSendToHub | Dev::FromTrustedChainDirectly(1) => AHub::Send { chain: origin_name.as_bytes().to_vec(), inner: inner_bytes.clone() }.encode(),
+            Dev::RawInner | Dev::FromTrustedChainDirectly(0) => inner_bytes.clone(),
             _ => AHub::Receive { chain: origin_name.as_bytes().to_vec(), inner: inner_bytes.clone() }.encode(),
         };
         match dev {
@@ -380,6 +386,7 @@ impl Property for C04 {
         }
         let hub_other_case = HUB_CHAIN.to_uppercase();
         let source_chain: &str = match dev {
+            Dev::FromTrustedChainDirectly(_) => origin,
             Dev::DeliveredUnderOtherSourceChain(k) => match k % 3 {
                 0 => origin,
                 1 => "stellar",
